@@ -201,7 +201,7 @@ Plan Gen(uint64_t seed, Tier tier)
     const bool repair = d > 0 && rng.chance(1, 5);
     int d0 = d;
     if (repair) d0 = (int)std::vector<int64_t>{d - 1, std::min(d - 1, 2016), rng.range(0, d - 1)}[rng.pick({2, 2, 1})];
-    const bool c_late = F >= 0 && rng.chance(1, 5);   // competing headers only after the probe was connected
+    const bool c_late = F >= 0 && rng.chance(1, ck == C_LONG_BELOW_BEST ? 3 : 5);   // competing headers only after the probe was connected
     const bool c_first = F >= 0 && !c_late && rng.coin();
     auto c_headers = [&]() {
         if (F >= 0 && std::max(early, 0) < F && c_first) hdr(0, F);
@@ -220,7 +220,7 @@ Plan Gen(uint64_t seed, Tier tier)
     if (c_late) hdr(1, ctip);
     int n_post = (int)rng.range(0, thorough ? 6 : 4);
     int main_blocks = P + k;
-    if (F >= 0 && F < P && ctip > main_blocks && rng.chance(1, 2)) {
+    if (F >= 0 && F < P && ctip > main_blocks && (rng.chance(1, 2) || (c_late && ck == C_LONG_BELOW_BEST))) {
         // reorg to the competing branch (disconnects the probe if it was connected) and back: the probe is connected a
         // second time, under whatever the header tree looks like by then
         int cb = std::min(ctip, main_blocks + (int)rng.range(1, 3));
@@ -702,8 +702,8 @@ Engine MakeEngine()
     e.run = Run;
     e.describe = Describe;
     e.chunk = 1;
-    e.quick_runs = 600;
-    e.thorough_runs = 20000;
+    e.quick_runs = 900;
+    e.thorough_runs = 22000;
     e.quick_budget_s = 50;
     e.thorough_budget_s = 900;
     e.rule = "per run: a generated regtest block tree (main branch of probe_height+2017..2060 coinbase-only blocks, exactly one 'probe' block at height 101-280 that spends a mature "
